@@ -301,10 +301,9 @@ fn reference(name: &str, args: &[Variable]) -> Option<String> {
         }
         "std.string.trim" | "std.string.trim_start" | "std.string.trim_end" => {
             let s = st(0)?;
-            if !s.is_ascii() {
-                return None;
-            }
-            let ws = |c: char| c == ' ' || c == '\t' || c == '\n' || c == '\r' || c == '\u{b}' || c == '\u{c}';
+            // whitespace = the Unicode White_Space property (what the documentation's "whitespace"
+            // means for a language whose strings are Unicode), which includes VT and FF
+            let ws = |c: char| c.is_whitespace();
             let cs: Vec<char> = s.chars().collect();
             let mut a = 0;
             let mut b = cs.len();
@@ -339,6 +338,7 @@ fn reference(name: &str, args: &[Variable]) -> Option<String> {
 const EXTRA_ARGS: &[&str] = &[
     "\" a b \"", "\"aXbXc\"", "\"X\"", "\"ab\"", "\"b\"", "\"ABC def\"", "\"\\t x \\n\"", "\"12\"", "\"-7\"", "\"+5\"", "\"1.5\"", "\"1e3\"", "\"nan\"", "\"x1\"",
     "\"9223372036854775808\"", "\"日本語\"", "[104, 105]", "[195, 169]", "[255]", "[195]", "[256, 65]", "[(0 - 1)]", "[240, 159, 152, 128]", "10", "100", "1000",
+    "\"\\u{a0}x\\u{a0}\"", "\"\\u{b}x\\u{b}\"", "\"\\u{2003}x y\\u{3000}\"", "\"\\u{85}\\u{2028}\"", "\"\\u{c} x\\u{1f}\"", "\"\\u{200b}x\\u{feff}\"",
     "(0 - 8)", "8", "1024", "0.5", "2.5", "(-2.5)", "(-0.5)", "3.5", "1.0", "(-1.0)", "2.0", "4503599627370497.0", "1e300", "(-1e300)",
 ];
 
